@@ -17,8 +17,8 @@ SPEC = {
  "C08": ("StructProof SubsetProof RSliceProof NonzeroProof PaddedProof Struct2 Struct2Proof", ["concat0_correct","concat1_correct","like_correct","where_correct","where_scalar_correct","subset_correct","ragged_slice_correct","nonzero_correct","padded_correct"]),
  "C09": ("ColProof ColSum Struct2 Struct2Proof", ["col_counts_correct","colsum_correct","get_column_values_correct"]),
  "C10": ("HeapProof HeapRun HeapRunProof", ["run_sim","C10_partial","apply_hsel_natural","safe_runb_iff","C10_partial_concrete","heap_run_is_value_semantics","C10_refuted"]),
- "C11": ("HashInit HashSet HashProof HashEq HashItems", ["Inv_mk","table_is_dictionary","getv_correct","write_one","setv_correct","tbl_eq_correct","items_correct"]),
- "C12": ("CounterProof FastIndices", ["count_correct","count_history","totals_of_batches","totals_split_and_order_invariant","fast_indices_is_build_indices","fast_indices_correct"]),
+ "C11": ("HashInit HashSet HashProof HashEq HashItems CounterProof HashRunProof", ["Inv_mk","table_is_dictionary","getv_correct","write_one","setv_correct","tbl_eq_correct","items_correct","hash_run_refines","hash_model_refines_spec"]),
+ "C12": ("CounterProof FastIndices HashRunProof", ["count_correct","count_history","totals_of_batches","totals_split_and_order_invariant","fast_indices_is_build_indices","fast_indices_correct","hash_run_refines"]),
  "C14": ("RoundTrip RLEProof RLEPer CanonProof ToArray StepProof StartEnd BinaryProof RLConcat", ["to_array_from_array","from_array_canonical","decode_from_array","decode_from_array_R","to_array_correct","join_runs_canonical","start_to_end_shape","step_subset_pos","apply_binary_correct","rl_concat_correct"]),
  "C15": ("RLEIndex RLEIndex2 RLEWindows GetSlice StartEnd StepProof StepNeg", ["get_position_correct","get_positions_correct","get_bool_mask_correct","rl_windows_decode","rl_getitem_rlmask_correct","get_slice_correct","start_to_end_decode","start_to_end_shape","step_subset_pos","step_subset_neg"]),
  "C16": ("BinaryProof RLEMisc RLConcat RLEReduce", ["apply_binary_correct","rl_map_correct","rl_sum_correct","rl_any_correct","rl_all_correct","rl_max_correct","rl_mean_correct","rl_hist_correct","rl_concat_correct"]),
